@@ -173,6 +173,24 @@ CLASS_BYTES = {"zero": b"\x00\x00\x00\x00", "max": b"\xff\xff\xff\xff", "negativ
 CLASS_TEXT = {"zero": b"0", "max": b"99999999999", "negative": b"-1"}
 
 
+def glb_rewrite(data, field, value):
+    """Re-frame a GLB after changing every occurrence of one numeric JSON field (lengths stay consistent,
+    so the corruption is not caught by the container checks)."""
+    import struct
+    if data[:4] != b"glTF" or len(data) < 20:
+        return None
+    jlen = struct.unpack("<I", data[12:16])[0]
+    js = data[20:20 + jlen]
+    rest = data[20 + jlen:]
+    new, n = re.subn(rb'("' + field.encode() + rb'"\s*:\s*)\d+', lambda m: m.group(1) + str(value).encode(), js)
+    if n == 0:
+        return None
+    new = new.rstrip(b" ")
+    new += b" " * ((4 - len(new) % 4) % 4)
+    total = 12 + 8 + len(new) + len(rest)
+    return data[:8] + struct.pack("<I", total) + struct.pack("<I", len(new)) + data[16:20] + new + rest
+
+
 def apply_faults(key, data, faults, rs, others):
     fields = layout(key, data)
     parts = [data[a:b] for a, b in fields]
@@ -459,6 +477,12 @@ def main(argv):
                 for val in (b"0", b"1", b"92", b"999999", b"1048576"):
                     if len(val) <= b - a:
                         add(key, data[:a] + val.rjust(b - a, b" ") + data[b:], {"json_field": mnum.group(1).decode(), "value": val.decode()})
+        if file_type_of(key) == "glb":
+            for field in ("byteStride", "count", "byteOffset", "byteLength", "componentType"):
+                for val in (0, 1, 3, 92, 65536, 1048576, 1073741824, 4294967295):
+                    mutated = glb_rewrite(data, field, val)
+                    if mutated is not None:
+                        add(key, mutated, {"glb_json_field": field, "value": val})
         # single byte / word corruptions
         for _ in range(40 if tier == "quick" else 600):
             pos = rs.randint(0, n)
